@@ -63,6 +63,9 @@ type GComp struct {
 	Async   []Op `json:"async,omitempty"` // exporters only
 	Gate    int  `json:"gate,omitempty"`
 	Fail    bool `json:"fail,omitempty"` // exporters only
+	// Undeclared (non-mutating exporters only): mutation steps attempted when —
+	// and only when — the payload received is marked read-only; each must panic.
+	Undeclared []Op `json:"undeclared,omitempty"`
 }
 
 // GConn is one connector.
@@ -143,6 +146,10 @@ func genGraph(t *rapid.T) GraphScript {
 	var next int64 = 1
 	s.Payload = sig.Gen(t, s.Signal, smallOpts(), &next)
 	s.ReadOnly = pct(t, "readonly", 15)
+	var ix *siteIndex
+	if v, err := sig.Decode(s.Signal, s.Payload); err == nil {
+		ix = indexSites(v)
+	}
 	s.Recvs = []string{recvType + "/r0", recvType + "/r1"}
 
 	var procs, exps []string
@@ -150,7 +157,7 @@ func genGraph(t *rapid.T) GraphScript {
 		id := fmt.Sprintf("%s/p%d", procType, i)
 		c := GComp{Mutates: rapid.Bool().Draw(t, "procmut")}
 		if c.Mutates {
-			c.Sync = append([]Op{Mark(id)}, genProgram(t, "procsync", 2)...)
+			c.Sync = append([]Op{Mark(id)}, genProgram(t, "procsync", 2, ix)...)
 		}
 		s.Procs[id] = c
 		procs = append(procs, id)
@@ -159,14 +166,16 @@ func genGraph(t *rapid.T) GraphScript {
 		id := fmt.Sprintf("%s/e%d", expType, i)
 		c := GComp{Mutates: rapid.Bool().Draw(t, "expmut"), Fail: pct(t, "expfail", 20)}
 		if c.Mutates {
-			c.Sync = genProgram(t, "expsync", 2)
+			c.Sync = genProgram(t, "expsync", 2, ix)
 			if pct(t, "expmarksync", 80) {
 				c.Sync = append([]Op{Mark(id + ".sync")}, c.Sync...)
 			}
 			if pct(t, "expasync?", 50) {
-				c.Async = append([]Op{Mark(id + ".async")}, genProgram(t, "expasync", 2)...)
+				c.Async = append([]Op{Mark(id + ".async")}, genProgram(t, "expasync", 2, ix)...)
 				c.Gate = rapid.SampledFrom([]int{-1, 0, 0, 1, 3, 9}).Draw(t, "gate")
 			}
+		} else if pct(t, "expundeclared?", 40) {
+			c.Undeclared = append(genProgram(t, "expundeclared", 1, ix), Mark(id+".undeclared"))
 		}
 		s.Exps[id] = c
 		exps = append(exps, id)
@@ -237,7 +246,7 @@ func genGraph(t *rapid.T) GraphScript {
 		}
 		fwd.Mutates = pct(t, "fwdmut", 35)
 		if fwd.Mutates {
-			fwd.Sync = append([]Op{Mark(fwd.ID)}, genProgram(t, "fwdsync", 2)...)
+			fwd.Sync = append([]Op{Mark(fwd.ID)}, genProgram(t, "fwdsync", 2, ix)...)
 		}
 		if pct(t, "route?", 40) {
 			fwd.Route = subsetOf(t, "route", backIDs, 1, len(backIDs))
@@ -258,7 +267,7 @@ func genGraph(t *rapid.T) GraphScript {
 		}
 		cross.Mutates = pct(t, "crossmut", 40)
 		if cross.Mutates {
-			cross.Sync = append([]Op{Mark(cross.ID)}, genProgram(t, "crosssync", 1)...)
+			cross.Sync = append([]Op{Mark(cross.ID)}, genProgram(t, "crosssync", 1, ix)...)
 		}
 		s.Conns = append(s.Conns, cross)
 	}
@@ -298,6 +307,7 @@ type arrival struct {
 
 type gdelivery struct {
 	call     arrival
+	ro       bool // the payload was read-only at call time
 	retained any
 }
 
@@ -405,10 +415,17 @@ func (w *gworld) exp(signal string, id component.ID) capser {
 	w.mu.Unlock()
 	return api.newCons(cfg.Mutates, func(_ context.Context, v any) error {
 		at := w.hs.enter()
-		d := &gdelivery{call: w.arrive(key, v), retained: v}
+		d := &gdelivery{call: w.arrive(key, v), ro: isReadOnly(v), retained: v}
 		w.mu.Lock()
 		w.deliveries[key] = append(w.deliveries[key], d)
 		w.mu.Unlock()
+		if !cfg.Mutates && d.ro {
+			for _, op := range cfg.Undeclared {
+				if p, _ := vt.Recover(func() { ApplyOp(v, op) }); p == nil {
+					w.problem(vt.Failf("undeclared-mutation-succeeded", "%s: undeclared mutation step %+v on a read-only payload did not panic", key, op))
+				}
+			}
+		}
 		if cfg.Mutates && w.edit(key, v, cfg.Sync) && len(cfg.Async) > 0 {
 			w.hs.spawn(at, cfg.Gate, func() {
 				if msg := applyRecovered(v, cfg.Async); msg != "" {
@@ -637,6 +654,7 @@ type geval struct {
 	arrivals   map[string][]arrival
 	deliveries map[string][][2]arrival // exporter key → (at call, final)
 	failing    map[string]bool         // exporter keys that fail and are reached
+	sharedAll  map[string]bool         // exporter key → every expected delivery reaches it through a stage with >= 2 readers
 	mutMemo    map[int]bool
 	paths      int
 	depth      int
@@ -700,10 +718,39 @@ func (e *geval) walk(pi int, t trail, depth int) error {
 	if err != nil {
 		return err
 	}
+	// readers of the exporter stage: consumers that do not declare mutation share one payload
+	readers := 0
+	for _, id := range p.Exporters {
+		c, isConn := e.conns[id]
+		switch {
+		case !isConn:
+			if !e.s.Exps[id].Mutates {
+				readers++
+			}
+		case c.From != c.To:
+			if !c.Mutates {
+				readers++
+			}
+		default:
+			m := c.Mutates
+			for _, q := range e.downstream(id, c.To) {
+				m = m || e.pipeMutates(q)
+			}
+			if !m {
+				readers++
+			}
+		}
+	}
 	for _, id := range p.Exporters {
 		c, isConn := e.conns[id]
 		if !isConn {
 			k := expKey(p.Signal, id)
+			if _, seen := e.sharedAll[k]; !seen {
+				e.sharedAll[k] = true
+			}
+			if readers < 2 {
+				e.sharedAll[k] = false
+			}
 			cfg := e.s.Exps[id]
 			final := at
 			if cfg.Mutates {
@@ -977,6 +1024,7 @@ func runGraph(s GraphScript) (nontrivial bool, key string, f *vt.Finding) {
 		}
 		// expectation from the configuration
 		ev.memo, ev.arrivals, ev.deliveries, ev.failing, ev.paths = map[string]arrival{}, map[string][]arrival{}, map[string][][2]arrival{}, map[string]bool{}, 0
+		ev.sharedAll = map[string]bool{}
 		for _, i := range fed {
 			if err := ev.walk(i, trail{}, 0); err != nil {
 				shutdown()
@@ -1004,6 +1052,23 @@ func runGraph(s GraphScript) (nontrivial bool, key string, f *vt.Finding) {
 			if d := multisetDiff(ev.arrivals[k], w.arrivals[k]); d != "" {
 				finding = vt.Failf("content-at-call/"+strings.SplitN(k, ":", 2)[0], "payload emitted by %s: what %s received differs from the original plus the edits of the components upstream of it: %s", r, k, d)
 				break
+			}
+		}
+		if finding != nil {
+			break
+		}
+		// (1b) a payload shared by several non-mutating consumers of one exporter stage is marked read-only
+		for _, k := range ks {
+			if !strings.HasPrefix(k, "exp:") || s.Exps[strings.SplitN(k, ":", 3)[2]].Mutates {
+				continue
+			}
+			for _, d := range w.deliveries[k] {
+				if ev.sharedAll[k] && !d.ro {
+					finding = vt.Failf("shared-not-readonly", "payload emitted by %s: %s only ever shares its payload with another non-mutating consumer of the same exporter stage, but saw it not marked read-only", r, k)
+				}
+				if d.ro && len(s.Exps[strings.SplitN(k, ":", 3)[2]].Undeclared) > 0 {
+					cGraph.Class("undeclared:on-readonly")
+				}
 			}
 		}
 		if finding != nil {
@@ -1145,4 +1210,7 @@ func anyConnMutates(s *GraphScript) bool {
 	return false
 }
 
-func TestGraph(t *testing.T) { vt.Run(t, cGraph, vt.N(2500, 60000), genGraph, runGraph) }
+func TestGraph(t *testing.T) {
+	defer flushOpReach(cGraph)
+	vt.Run(t, cGraph, vt.N(8000, 400000), genGraph, runGraph)
+}
